@@ -4,7 +4,7 @@
 (* invariants (VM against the reference semantics of Peg.tla), and the     *)
 (* REPLAY output that binds every explored behaviour to the real crate.    *)
 (***************************************************************************)
-EXTENDS ChumskyVM, Peg, Json, RecData
+EXTENDS ChumskyVM, Peg, Json, RecData, Stat
 
 CONSTANTS Fam,        \* name of the grammar family
           MaxSize,    \* grammars of at most this many nodes
@@ -29,7 +29,7 @@ Inputs == IF Kinds \cap {"tree", "treem"} # {} THEN {s \in Strs(MaxLen) : BalFro
 (* "E" stands for a two-byte character (the harness maps it to U+00E9),   *)
 (* "W" for a four-byte one                                                *)
 (* "G" = e + combining acute (3 bytes), "U" = a flag of two regional indicators (8 bytes): one grapheme cluster each *)
-Width(kind, t) == IF kind \in {"str", "graph"}
+Width(kind, t) == IF kind \in {"str", "graph", "static", "staticc"}
                   THEN (CASE t = "E" -> 2 [] t = "W" -> 4 [] t = "X" -> 2 [] t \in {"L", "P", "G"} -> 3 [] t = "U" -> (IF kind = "graph" THEN 8 ELSE 3) [] OTHER -> 1) ELSE 1
 RECURSIVE OffsFrom(_, _, _)
 OffsFrom(kind, s, o) == IF s = <<>> THEN <<o>> ELSE <<o>> \o OffsFrom(kind, Tail(s), o + Width(kind, Head(s)))
@@ -318,12 +318,12 @@ GapTemplates ==
   \cup {<<"collect", <<"rep", <<"then", J("a"), <<"tospan", <<"ornot", J("b")>>>>>>, 0, Inf>>, "vec">>,
         <<"foldlw", <<"any">>, <<"rep", <<"then", J("a"), <<"tospan", <<"empty">>>>>>, 0, Inf>>, "g">>,
         <<"foldrw", <<"rep", J("a"), 0, Inf>>, <<"tospan", <<"empty">>>>, "g">>}
-Templates(fam) == CASE fam = "memoT" -> MemoTemplates [] fam = "gapT" -> GapTemplates [] fam = "rcvN" -> RcvNTemplates [] fam = "txt" -> TxtTemplates [] fam = "txtc" -> TxtCTemplates
+Templates(fam) == CASE fam = "memoT" -> MemoTemplates [] fam = "gapT" -> GapTemplates [] fam = "stat" -> StatGrammars [] fam = "rcvN" -> RcvNTemplates [] fam = "txt" -> TxtTemplates [] fam = "txtc" -> TxtCTemplates
                     \* byte inputs have no text::newline; the radix family looks at int / digits only
                     [] fam = "txtb" -> {g \in TxtTemplates \cup TxtCTemplates : ~HasOp(g, {"newline"}) /\ g \notin {TUKw(<<"E", "a">>), <<"then", TUKw(<<"E", "a">>), RestCap>>}}
                     [] fam = "txtr" -> {<<"then", tp, RestCap>> : tp \in {TDigits(r) : r \in {"2", "8", "10", "16", "36"}} \cup {TInt(r) : r \in {"2", "8", "10", "16", "36"}}} [] fam = "drpT" -> DrpTemplates [] fam = "rcvT" -> RcvTemplates [] fam = "lblT" -> LblTemplates
                     [] fam = "pratt" -> PrattTemplates [] fam = "rec" -> RecTemplates [] fam = "lrec" -> LRecTemplates [] fam = "repT" -> RepTemplates
-TemplateFams == {"rec", "lrec", "repT", "pratt", "memoT", "rcvT", "lblT", "drpT", "txt", "txtc", "txtb", "txtr", "gapT", "rcvN"}
+TemplateFams == {"rec", "lrec", "repT", "pratt", "memoT", "rcvT", "lblT", "drpT", "txt", "txtc", "txtb", "txtr", "gapT", "rcvN", "stat"}
 
 Grammars == IF Fam \in TemplateFams THEN {g \in Templates(Fam) : Fam = "lrec" \/ WF(g)}
             ELSE {g \in UNION {GSz(Fam, n) : n \in 1..MaxSize} : WF(g)}
